@@ -11,9 +11,11 @@ func TestFamily(t *testing.T) {
 	r := hx.NewRng("purekeys")
 	o := hx.NewOut()
 	defer o.Close()
+	famC07a(r, o)
 	famC15(t, r, o)
+	famC07b(r, o)
 	famC16(t, r, o)
-	famC07(r, o)
+	famC07c(r, o)
 	famC48(r, o)
 	t.Logf("records=%d", o.Count())
 }
